@@ -538,8 +538,11 @@ def check_stage_file_index(ctx, m) -> None:
 
 def check_missing_not_none(ctx, m) -> None:
     RID = "C19.R10-missing-is-not-the-text-None"
-    po = m.func("Dosini.parse_output")
-    do = m.func("Dosini._dump_output")
+    for reader, writer, label in (("Dosini.parse_output", "Dosini._dump_output", "[Output]"), ("Dosini.parse_status", "Dosini._dump_status", "[Status]")):
+        _missing_not_none(ctx, m, RID, m.func(reader), m.func(writer), label)
+
+
+def _missing_not_none(ctx, m, RID, po, do, label) -> None:
     ctx.analysed(po)
     ctx.analysed(do)
     # accessors of the reader that answer None for a missing option: nested functions with an implicit / explicit `return None` path
@@ -555,7 +558,7 @@ def check_missing_not_none(ctx, m) -> None:
         if isinstance(a, ast.Assign) and isinstance(a.value, ast.Call) and isinstance(a.value.func, ast.Name) and a.value.func.id in accessors \
                 and a.value.args and isinstance(a.value.args[0], ast.Constant):
             optional.add(a.value.args[0].value)
-    ctx.floor(RID, len(optional), 1, "options of the [Output] section read with the None-when-missing accessor")
+    ctx.floor(RID, len(optional), 1, "options of the %s section read with the None-when-missing accessor" % label)
     cfg = CFG(do)
     n = 0
     for nd in cfg.nodes:
@@ -564,15 +567,19 @@ def check_missing_not_none(ctx, m) -> None:
         for c in own_calls(nd.ast):
             if last_attr(c) == "set" and len(c.args) == 3 and isinstance(c.args[2], ast.Call) and call_name(c.args[2]) == "str" and c.args[2].args:
                 val = c.args[2].args[0]
-                # which keys does this write cover: a literal key, or a loop variable over a literal list
+                # which keys does this write cover: a literal key, a loop variable over a literal list, or a loop variable over the
+                # keys of the stored section itself (then: every key the reader may have stored)
                 keys = set()
                 kx = c.args[1]
                 if isinstance(kx, ast.Constant):
                     keys = {kx.value}
                 elif isinstance(kx, ast.Name):
                     for lp in source.walk_own(do):
-                        if isinstance(lp, ast.For) and isinstance(lp.target, ast.Name) and lp.target.id == kx.id and isinstance(lp.iter, (ast.List, ast.Tuple)):
-                            keys |= {e.value for e in lp.iter.elts if isinstance(e, ast.Constant)}
+                        if isinstance(lp, ast.For) and isinstance(lp.target, ast.Name) and lp.target.id == kx.id:
+                            if isinstance(lp.iter, (ast.List, ast.Tuple)):
+                                keys |= {e.value for e in lp.iter.elts if isinstance(e, ast.Constant)}
+                            else:
+                                keys |= optional
                 if not (keys & optional):
                     continue
                 n += 1
@@ -583,11 +590,11 @@ def check_missing_not_none(ctx, m) -> None:
                 ok = bool(tests) and match.only_via_edges(cfg, nd, tests)
                 ctx.ob(RID, c, ok,
                        "%s is written only when it is not None" % short(val, 30) if ok else
-                       "_dump_output writes str(%s) for %s although parse_output stores None for an option the section does not have: "
-                       "'[Out] stages=stage0 data-in=A/x.csv:copy' is written with 'description = None', 'type = None' and reloaded as the "
-                       "strings 'None'" % (short(val, 30), sorted(keys & optional)),
-                       construct="_dump_output: str(%s) <- is not None" % short(val, 30))
-    ctx.floor(RID, n, 1, "writes of optional [Output] keys in _dump_output")
+                       "%s writes str(%s) for %s although %s stores None for an option the section does not have: the option is written as "
+                       "the text 'None' (or the writer's assertion on the value fails) and the instance does not survive a second "
+                       "write/reload" % (do.name, short(val, 30), sorted(keys & optional), po.name),
+                       construct="%s: str(%s) <- is not None" % (do.name, short(val, 30)))
+    ctx.floor(RID, n, 1, "writes of optional %s keys in %s" % (label, do.name))
 
 
 def check_stage_files_contiguous(ctx, m) -> None:
@@ -616,6 +623,31 @@ def check_stage_files_contiguous(ctx, m) -> None:
                 "components (its stage file holds only [META]) is skipped, the instance is written as stage0 + stage2 and cannot be "
                 "loaded ('Missing stage files (present: [0, 2])')" % short(it, 40)),
                construct="_dump_components: for <stage> in range(<highest>+1)")
+
+
+def check_defaults_only_for_the_missing(ctx, m) -> None:
+    from vlib import escape
+    RID = "C19.R12-default-only-for-what-is-missing"
+    fns = [f for q, f in sorted(m.functions.items()) if q.startswith("Dosini.") and not any(
+        q.startswith(o + ".") and o != q for o in m.functions if o.startswith("Dosini."))]
+    tries = 0
+    for f in fns:
+        own = [t for t in source.walk_own(f) if isinstance(t, ast.Try) and any(
+            isinstance(x, ast.Name) and isinstance(x.ctx, ast.Store) for h in t.handlers for st in h.body for x in ast.walk(st))]
+        if not own:
+            continue
+        tries += len(own)
+        ctx.analysed(f)
+        bad = {id(t): (nm, st, later) for (t, h, nm, st, later) in escape.handler_discards_found(f)}
+        for t in own:
+            hit = bad.get(id(t))
+            ctx.ob(RID, t, hit is None,
+                   "the handler's default replaces only a value whose own look-up is the last raising statement of the try body" if hit is None else
+                   "the handler resets %s, which the try body had already found (%s), whenever the LATER statement %s raises: a description "
+                   "that has the one value and not the other is written without the one it has (stage variables of a description without "
+                   "global variables never reach [META] of the stage files, and cannot be resolved after the reload)"
+                   % (hit[0], short(hit[1], 50), short(hit[2], 50)), construct="try: <look-ups> except: <defaults> in %s" % f.name)
+    ctx.floor(RID, len(fns), 20, "functions of the Dosini writer/reader inspected for default-binding handlers")
 
 
 def check_static_tables(ctx, m, cls) -> None:
@@ -780,6 +812,9 @@ def run(ctx) -> None:
              "their value is not None: str(None) comes back as the string 'None'")
     ctx.rule("C19.R11-one-stage-file-per-index", "the reader requires the stage files 0..N-1 to be all present, so the writer's loop over the "
              "stages runs over range(<highest stage>+1), not only over the stages that have components")
+    ctx.rule("C19.R12-default-only-for-what-is-missing", "in the Dosini writer and reader an except handler that binds a default for a name does so only "
+             "when the look-up of THAT name failed: no statement that can raise follows the name's look-up inside the same try body "
+             "(otherwise a value that is present in the description is dropped because another one is absent)")
     ctx.rule("C19.R4-reader-without-writer", "options parsed but never written are exactly the frozen list")
 
     m = ctx.repo.module(DOSINI)
@@ -798,6 +833,7 @@ def run(ctx) -> None:
     check_stage_file_index(ctx, m)
     check_missing_not_none(ctx, m)
     check_stage_files_contiguous(ctx, m)
+    check_defaults_only_for_the_missing(ctx, m)
     tmap = {k: v for k, v in translate.items() if v is not None}
 
     wt = extract_writer_table(ctx, m)
@@ -991,15 +1027,25 @@ def run(ctx) -> None:
     ctx.ob("C19.R3-sections", pst, ok, "status section: every parsed key is stored under the same name (%s)" % sorted(rkeys) if ok else
            "status section: parsed keys %s, stored keys %s" % (sorted(rkeys), sorted(stored)), construct="status.conf keys")
     dst = m.func("Dosini._dump_status")
-    ok = any(isinstance(nn, ast.For) and "status[stage_index]" in source.src(nn.iter) for nn in source.walk_own(dst)) and \
-        any(isinstance(c, ast.Call) and last_attr(c) == "set" and len(c.args) == 3 and isinstance(c.args[1], ast.Name) and c.args[1].id == "key"
-            for c in source.calls_in(dst))
+    def _key_loop(lp: ast.AST) -> bool:
+        # for <k> in <section>[<stage>] (or its .keys()/.items()) ... <parser>.set(<name>, <k>, ..)
+        if not (isinstance(lp, ast.For) and isinstance(lp.target, (ast.Name, ast.Tuple))):
+            return False
+        kname = lp.target.id if isinstance(lp.target, ast.Name) else (lp.target.elts[0].id if lp.target.elts and isinstance(lp.target.elts[0], ast.Name) else None)
+        it = lp.iter.func.value if isinstance(lp.iter, ast.Call) and isinstance(lp.iter.func, ast.Attribute) and lp.iter.func.attr in ("keys", "items") else lp.iter
+        return kname is not None and isinstance(it, ast.Subscript) and any(
+            isinstance(c, ast.Call) and last_attr(c) == "set" and len(c.args) == 3 and isinstance(c.args[1], ast.Name) and c.args[1].id == kname
+            for st in lp.body for c in ast.walk(st))
+    ok = any(_key_loop(nn) for nn in source.walk_own(dst))
     ctx.ob("C19.R3-sections", dst, ok, "status section is dumped key-for-key" if ok else "status section is no longer dumped key-for-key",
            construct="_dump_status writes every key of status[stage]")
     sec_w = {c.args[0].left.value for c in source.calls_in(dst) if isinstance(c, ast.Call) and False} or set()
     # section naming: 'STAGE%d' written, 'STAGE' prefix parsed
     w = any(isinstance(nn, ast.BinOp) and isinstance(nn.left, ast.Constant) and nn.left.value == "STAGE%d" for nn in ast.walk(dst))
-    r = "startswith('STAGE')" in source.src(pst) and "stage[5:]" in source.src(pst)
+    prefixed = {c.func.value.id for c in source.calls_in(pst) if last_attr(c) == "startswith" and isinstance(c.func.value, ast.Name)
+                and c.args and isinstance(c.args[0], ast.Constant) and c.args[0].value == "STAGE"}
+    r = any(isinstance(nn, ast.Subscript) and isinstance(nn.value, ast.Name) and nn.value.id in prefixed and isinstance(nn.slice, ast.Slice)
+            and isinstance(nn.slice.lower, ast.Constant) and nn.slice.lower.value == len("STAGE") and nn.slice.upper is None for nn in ast.walk(pst))
     ctx.ob("C19.R3-sections", dst, w and r, "status sections are named STAGE<index> on both sides" if w and r else
            "status section naming differs between writer and reader", construct="STAGE%d <-> stage[5:]")
 
